@@ -345,6 +345,9 @@ def check_comparison(prog, chk, body, field, variant, bb, idx, stmt, limit_tmp):
             # the String whose len is taken must be the one pushed for assignment
             src = body.chase(ch[2]["args"][0])
             stored_same = _len_subject_is_stored(body, ch[2]["args"][0]) or _len_subject_is_scope_attr(body, ch[2]["args"][0])
+        if is_len and stored_same == "returned" and op == "Gt":
+            chk.undecided("A7.pred", key, where, "the value whose length is tested against var_limit is handed back to the caller (not stored here): that the caller stores this very value is not read by this rule")
+            return
         chk.ob(
             is_len and stored_same and op == "Gt",
             "A7.pred",
@@ -431,6 +434,8 @@ def _len_subject_is_stored(body, arg_op):
             for (b2, i2, n2, how2, _c2) in R.forward_value_uses(body, tl):
                 if i2 == R.TERM and n2["k"] == "call" and "fn" in n2 and Callee(n2["fn"]).path.endswith("::push"):
                     return True
+                if i2 != R.TERM and "rv" in n2 and n2["rv"].get("k") == "aggr" and n2["rv"].get("variant") in ("Ok", "Some") and n2["lhs"][0] in body.ret_locals:
+                    return "returned"  # handed back (e.g. out of a `map` closure that is collected): stored by the caller
     return False
 
 
